@@ -293,6 +293,9 @@ func main() {
 			err = corr.CloseWithBacklog(res, *seed, 12000)
 		}
 		if err == nil {
+			err = corr.CloseLeavesNoWatcher(res, *seed)
+		}
+		if err == nil {
 			err = corr.CloseOnSilentLink(res, *seed)
 		}
 		if err == nil {
